@@ -111,6 +111,19 @@ class C07(InterpProp):
             g = gen.ChartGen(rnd, kn)
             sc = g.build()
             ops1 = None
+        if ops1 is None and rnd.random() < 0.15:
+            # two transitions of one state on the same event which both stay inside that state (preferably a child
+            # of an orthogonal state): whatever the interpreter makes of them does not depend on which comes first
+            from sismic.model import OrthogonalState, Transition
+            from sismic.model.elements import TransitionStateMixin
+            owners = [n for n in sc.states if n != sc.root and isinstance(sc.state_for(n), TransitionStateMixin)]
+            pref = [n for n in owners if isinstance(sc.state_for(sc.parent_for(n)), OrthogonalState)]
+            if owners:
+                s = rnd.choice(pref or owners)
+                ev = rnd.choice(gen.EVENTS)
+                inside = [None] + list(sc.children_for(s))
+                sc.add_transition(Transition(s, rnd.choice(inside), event=ev, action='x = x * 2 + 1'))
+                sc.add_transition(Transition(s, rnd.choice(inside), event=ev, action='x = x + 3'))
         history = None
         if rnd.random() < 0.12:
             # the first chart has a past (used, restructured through the editing API); its twin is built
